@@ -49,7 +49,7 @@ pub(crate) fn parse_directive(jsx_attr: &JSXAttr, is_component: bool) -> Directi
                 .split('_');
             (
                 lower_first(splitted.next().unwrap_or(&*ident.sym)),
-                splitted.next(),
+                None,
                 splitted,
             )
         }
